@@ -148,12 +148,13 @@ Print Assumptions strict_path_same_reply.
    its own, truthful WireInfo, no stored EDE), the reply it sends is the reply WriteMsg sends for
    the same response — so every clause above carries over to the byte path *)
 Theorem wire_path_agrees :
-  forall tr c q strict d hasd blen r,
+  forall tr c q strict d iad hasd blen r,
     let w := mk_wstate tr strict q (set_edns0 c q) in
     cfg_wf c -> client_ver q = 0 ->
     filter is_opt (m_ex d) = [] ->
+    iad = h_ad (m_hdr d) ->
     hasd = has_dnssec_aug d ->
-    write_wire tr c w d hasd None blen = Some r ->
+    write_wire tr c w d iad hasd None blen = Some r ->
     norm r = shape_reply tr c w d (blen + (if w_noedns w then 0 else opt_len (wire_opt c w None))).
 Proof. exact wire_path_agrees_l. Qed.
 Print Assumptions wire_path_agrees.
